@@ -32,7 +32,7 @@ type c27Case struct {
 }
 
 var c27Channels = []string{"a", "b", "c"}
-var c27Kinds = []string{"honest", "honest", "honest", "tampered-body", "channel-rewritten", "signed-for-other-channel", "other-signer", "other-signer-with-key", "wrong-context", "empty-channel", "duplicate"}
+var c27Kinds = []string{"honest", "honest", "honest", "replayed-under-other-sender", "tampered-body", "channel-rewritten", "signed-for-other-channel", "other-signer", "other-signer-with-key", "wrong-context", "empty-channel", "duplicate"}
 
 func genC27(t *rapid.T) c27Case {
 	c := c27Case{Subs: rapid.IntRange(0, 7).Draw(t, "subs")}
@@ -160,6 +160,28 @@ func checkC27(c c27Case) (o vstat.Outcome) {
 				continue
 			}
 		}
+		if kind == "replayed-under-other-sender" {
+			// an honest message that went through before, byte for byte, with only the claimed sender rewritten to
+			// another identity (the signature is the honest sender's)
+			var prev *sent
+			for j := len(script) - 1; j >= 0; j-- {
+				if script[j].kind == "honest" {
+					prev = &script[j]
+					break
+				}
+			}
+			if prev == nil {
+				kind = "honest"
+			} else {
+				m = prev.msg.CloneVT()
+				m.FromPeerId = gen.PeerID(3).String()
+				script = append(script, sent{kind: kind, ch: prev.ch, data: prev.data + "#as-other", msg: m})
+				pkt.Publish = append(pkt.Publish, m)
+				dishonest++
+				o.Classes = append(o.Classes, "dishonest:"+kind)
+				continue
+			}
+		}
 		m = mkPub(kind, 1, 3, ch, other, []byte(data))
 		script = append(script, sent{kind: kind, ch: ch, data: data, msg: m})
 		pkt.Publish = append(pkt.Publish, m)
@@ -274,7 +296,7 @@ func checkC27(c c27Case) (o vstat.Outcome) {
 
 var specC27 = vstat.Spec[c27Case]{
 	Property: "C27",
-	Rule: "one real FloodSub node subscribed to a generated subset of channels {a,b,c}, a harness peer attached through AddPeerStream writing 1-10 publish entries (several per packet): honest, body tampered, inner channel rewritten after signing, signed for channel x but carrying y, signed by another key claiming the sender, signed under a non-pubsub context, empty channel, honest for an unsubscribed channel, exact duplicates; a second harness peer subscribed to everything observes what the node forwards; in half of the cases a local subscription change right before the script puts the router into its re-evaluation pause so that the packets queue up; " +
+	Rule: "one real FloodSub node subscribed to a generated subset of channels {a,b,c}, a harness peer attached through AddPeerStream writing 1-10 publish entries (several per packet): honest, body tampered, inner channel rewritten after signing, signed for channel x but carrying y, signed by another key claiming the sender, an earlier honest message replayed with only the claimed sender rewritten, signed under a non-pubsub context, empty channel, honest for an unsubscribed channel, exact duplicates; a second harness peer subscribed to everything observes what the node forwards; in half of the cases a local subscription change right before the script puts the router into its re-evaluation pause so that the packets queue up; " +
 		"oracle (independent ed25519 check): the subscription handlers get exactly the honest entries for their channel once each with the right sender, the observer is forwarded exactly those once each, nothing is echoed to the sender; non-trivial = at least one dishonest or unsubscribed-channel entry",
 	Assumptions: []string{"in-order processing per stream: an honest marker message after the script bounds the wait (no timing used as an oracle)"},
 	Gen:         genC27,
